@@ -414,7 +414,7 @@ func main() {
 			continue
 		}
 		cf := cp.funcs()
-		for _, n := range []string{"csvToSql", "doBatchInsert", "colDataTypes", "Terminal.handleKey", "runTerminal"} {
+		for _, n := range []string{"csvToSql", "doBatchInsert", "colDataTypes", "Terminal.handleKey", "runTerminal", "splitStatements"} {
 			if fd, ok := cf[n]; ok {
 				facts["panics."+d+"."+n] = cp.panicSites(fd)
 				if n == "doBatchInsert" || n == "runTerminal" {
